@@ -154,7 +154,7 @@ def check(rep):
     distinct = set()
     for profile in ("debug", "release"):
         mode = "d" if profile == "debug" else "r"
-        impl_lines = [json.dumps({"cmd": "read", "file": d.hex(), "bytes": True, "base": b, "extra": 2, "max_samples": 200}) for d, _, b, _ in files]
+        impl_lines = [json.dumps({"cmd": "read", "file": d.hex(), "bytes": True, "base": b, "extra": 2, "max_samples": 200, "revisit": True}) for d, _, b, _ in files]
         impl_raw = common.harness_run("run", profile, impl_lines)
         mlines, midx = [], []
         for fi, (d, tracks, b, _) in enumerate(files):
